@@ -57,7 +57,15 @@ func Load(dir string, extraPatterns ...string) (*Program, error) {
 		return nil, fmt.Errorf("load/type errors (fail closed):\n  %s", strings.Join(errs, "\n  "))
 	}
 	prog, _ := ssautil.AllPackages(initial, ssa.InstantiateGenerics)
-	prog.Build()
+	// Only the repository's own packages need function bodies: everything else is
+	// host code that the analyser treats as external.
+	for _, ip := range initial {
+		if ip.PkgPath == ModulePath || strings.HasPrefix(ip.PkgPath, ModulePath+"/") || strings.HasPrefix(ip.PkgPath, "verif/") {
+			if sp := prog.Package(ip.Types); sp != nil {
+				sp.Build()
+			}
+		}
+	}
 	p := &Program{SSA: prog, SSAPkgs: map[string]*ssa.Package{}, Dir: dir, AllPkgs: initial}
 	for _, ip := range initial {
 		if ip.PkgPath == ModulePath || strings.HasPrefix(ip.PkgPath, ModulePath+"/") ||
